@@ -1319,6 +1319,11 @@ impl Runner {
                         let req = Frame::builder("hb", Scru128Id::from(ctx)).ttl(TTL::Head(k)).build();
                         self.op_append(req, None)?;
                     }
+                    // ... and a topic whose N shrinks while its earlier collections are still queued
+                    for n in [5u32, 5, 5, 5, 1] {
+                        let req = Frame::builder("hd", Scru128Id::from(ctx)).ttl(TTL::Head(n)).build();
+                        self.op_append(req, None)?;
+                    }
                     self.res.count("backlog.head_appends_while_collector_busy");
                     self.op_drain()?;
                     self.sweep()?;
